@@ -16,7 +16,11 @@ pub struct C13 {
 
 impl C13 {
 	pub fn new() -> Self {
-		C13 { quick: Space::new(false), thorough: Space::new(true), fixtures: common::fixtures() }
+		let mut q = Space::new(false);
+		q.n_random = 5000;
+		let mut t = Space::new(true);
+		t.n_random = 150000;
+		C13 { quick: q, thorough: t, fixtures: common::fixtures() }
 	}
 }
 
